@@ -23,14 +23,13 @@ def parse_st_var(st, st_var):
         The variance of the noise from the Stokes detector.
     """
     st_var_sec = st_var(st) if callable(st_var) else xr.ones_like(st) * st_var
-    return st_var_sec
 
     assert np.all(
         np.isfinite(st_var_sec)
     ), "NaN/inf values detected in computed st_var. Please check input."
 
     assert np.all(
-        st_var_sec > 0.0
+        st_var_sec >= 0.0
     ), "Negative values detected in computed st_var. Please check input."
 
     return st_var_sec
